@@ -7,7 +7,9 @@ Every class of a population carries a first attribute `Tag` (or `_0` for inferre
 instances can be identified independently of their order.
 
 Items
-  join       one load per population, links observed by navigation in both directions == the rule; the same rows
+  join       one load per population (single / composite keys in several spellings, shared referential attributes,
+             several associations into one class through different identifiers with equal / overlapping / crossed
+             referential names), links observed by navigation in both directions == the rule; the same rows
              created through MetaClass.new (referred rows first) and through clone from the loaded metamodel must give the
              same links
   orders     all permutations of <=6 statements x all splits into two input() calls give the same metamodel
@@ -349,14 +351,29 @@ def single_key_desc(ty, trows, rrows, cards):
                 rows=[mkrow('T', 10 + i, [v]) for i, v in enumerate(trows)] + [mkrow('R', 20 + i, [v]) for i, v in enumerate(rrows)])
 
 
-def double_key_desc(tys, trows, rrows, cards):
+DOUBLE_NAMINGS = 6
+
+
+def double_key_desc(tys, trows, rrows, cards, naming=0):
+    """R1: R(two referential attributes) -> T(Id, B).  trows / rrows: (value for Id, value for B) resp. (value referring
+    to Id, value referring to B).  naming: how the two sides spell, list and declare the key attributes
+      0  R(T_Id, T_B) -> T(Id, B)
+      1  R(Z_Id, A_B) -> T(Id, B)         the referential names sort the other way round than the identifying names
+      2  R(T_B, T_Id) -> T(B, Id)         the association lists the pairs in the other order than the classes declare
+      3  R(Id, B)     -> T(Id, B)         same spelling on both sides
+      4  R(B, Id)     -> T(Id, B)         crossed spelling: R.B refers to T.Id and R.Id refers to T.B
+      5  R(T_Id, T_B) -> T(Id, B)         R declares T_B before T_Id"""
     sc, tc = cards
+    ref_id, ref_b = [('T_Id', 'T_B'), ('Z_Id', 'A_B'), ('T_Id', 'T_B'), ('Id', 'B'), ('B', 'Id'), ('T_Id', 'T_B')][naming]
+    skeys, tkeys = ([ref_b, ref_id], ['B', 'Id']) if naming == 2 else ([ref_id, ref_b], ['Id', 'B'])
+    flip = naming == 5
+    rattrs = [['Tag', 'INTEGER']] + ([[ref_b, tys[1]], [ref_id, tys[0]]] if flip else [[ref_id, tys[0]], [ref_b, tys[1]]])
     return dict(classes=[dict(kind='T', attrs=[['Tag', 'INTEGER'], ['Id', tys[0]], ['B', tys[1]]]),
-                         dict(kind='R', attrs=[['Tag', 'INTEGER'], ['T_Id', tys[0]], ['T_B', tys[1]]])],
-                assocs=[dict(rel_id='R1', source=_end('R', ['T_Id', 'T_B'], sc), target=_end('T', ['Id', 'B'], tc))],
+                         dict(kind='R', attrs=rattrs)],
+                assocs=[dict(rel_id='R1', source=_end('R', skeys, sc), target=_end('T', tkeys, tc))],
                 ids=[dict(kind='T', name='I1', attrs=['Id', 'B'])],
                 rows=[mkrow('T', 10 + i, list(v)) for i, v in enumerate(trows)] +
-                     [mkrow('R', 20 + i, list(v)) for i, v in enumerate(rrows)])
+                     [mkrow('R', 20 + i, list(v)[::-1] if flip else list(v)) for i, v in enumerate(rrows)])
 
 
 def shared_desc(tys, t1rows, t2rows, rrows, cards):
@@ -373,16 +390,55 @@ def shared_desc(tys, t1rows, t2rows, rrows, cards):
                      [mkrow('R', 20 + i, list(v)) for i, v in enumerate(rrows)])
 
 
-def two_keys_desc(tys, trows, rrows, cards):
-    """Two associations to the same referred class over different identifying attributes: R1: R(X) -> T(Id),
-    R2: R(Y) -> T(B)."""
+TWO_KEYS_NAMINGS = ('one-class', 'equal', 'crossed', 'shared', 'overlap', 'permuted')
+
+
+def two_keys_desc(tys, trows, rrows, cards, naming='one-class', first=0):
+    """Two associations reach the same class T(Id, B) through different identifying attributes.  trows: (Id, B) values;
+    rrows: (x, y) values, x referring to an Id and y to a B.  naming: who refers and how the referentials are called
+      one-class  R(X, Y):             R1: R(X) -> T(Id)       R2: R(Y) -> T(B)
+      equal      P(Ref), Q(Ref):      R1: P(Ref) -> T(Id)     R2: Q(Ref) -> T(B)          equal referential names
+      crossed    P(B), Q(Id):         R1: P(B) -> T(Id)       R2: Q(Id) -> T(B)           spelled like the other identifier
+      shared     R(X), B typed as Id: R1: R(X) -> T(Id)       R2: R(X) -> T(B)            one attribute, two identifiers (y unused)
+      overlap    P(X, Y), Q(X):       R1: P(X, Y) -> T(Id, B) R2: Q(X) -> T(B)            overlapping names and identifiers
+      permuted   P(X, Y), Q(X, Y):    R1: P(X, Y) -> T(Id, B) R2: Q(X, Y) -> T(B, Id)     same names, other pairing
+    first: 1 = R2 is stated before R1."""
     sc, tc = cards
-    return dict(classes=[dict(kind='T', attrs=[['Tag', 'INTEGER'], ['Id', tys[0]], ['B', tys[1]]]),
-                         dict(kind='R', attrs=[['Tag', 'INTEGER'], ['X', tys[0]], ['Y', tys[1]]])],
-                assocs=[dict(rel_id='R1', source=_end('R', ['X'], sc), target=_end('T', ['Id'], tc)),
-                        dict(rel_id='R2', source=_end('R', ['Y'], sc), target=_end('T', ['B'], tc))],
-                ids=[], rows=[mkrow('T', 10 + i, list(v)) for i, v in enumerate(trows)] +
-                              [mkrow('R', 20 + i, list(v)) for i, v in enumerate(rrows)])
+    t0, t1 = tys
+    T = dict(kind='T', attrs=[['Tag', 'INTEGER'], ['Id', t0], ['B', t1]])
+    rows = [mkrow('T', 10 + i, list(v)) for i, v in enumerate(trows)]
+    tag = lambda kind, vals_of: [mkrow(kind, (20 if kind in 'PR' else 40) + i, vals_of(v)) for i, v in enumerate(rrows)]
+    if naming == 'one-class':
+        classes = [T, dict(kind='R', attrs=[['Tag', 'INTEGER'], ['X', t0], ['Y', t1]])]
+        a1 = dict(rel_id='R1', source=_end('R', ['X'], sc), target=_end('T', ['Id'], tc))
+        a2 = dict(rel_id='R2', source=_end('R', ['Y'], sc), target=_end('T', ['B'], tc))
+        rows += tag('R', lambda v: [v[0], v[1]])
+    elif naming in ('equal', 'crossed'):
+        pn, qn = ('Ref', 'Ref') if naming == 'equal' else ('B', 'Id')
+        classes = [T, dict(kind='P', attrs=[['Tag', 'INTEGER'], [pn, t0]]), dict(kind='Q', attrs=[['Tag', 'INTEGER'], [qn, t1]])]
+        a1 = dict(rel_id='R1', source=_end('P', [pn], sc), target=_end('T', ['Id'], tc))
+        a2 = dict(rel_id='R2', source=_end('Q', [qn], sc), target=_end('T', ['B'], tc))
+        rows += tag('P', lambda v: [v[0]]) + tag('Q', lambda v: [v[1]])
+    elif naming == 'shared':
+        if t0 != t1:
+            raise ValueError('one referential attribute has one type')
+        classes = [T, dict(kind='R', attrs=[['Tag', 'INTEGER'], ['X', t0]])]
+        a1 = dict(rel_id='R1', source=_end('R', ['X'], sc), target=_end('T', ['Id'], tc))
+        a2 = dict(rel_id='R2', source=_end('R', ['X'], sc), target=_end('T', ['B'], tc))
+        rows += tag('R', lambda v: [v[0]])
+    elif naming == 'overlap':
+        classes = [T, dict(kind='P', attrs=[['Tag', 'INTEGER'], ['X', t0], ['Y', t1]]), dict(kind='Q', attrs=[['Tag', 'INTEGER'], ['X', t1]])]
+        a1 = dict(rel_id='R1', source=_end('P', ['X', 'Y'], sc), target=_end('T', ['Id', 'B'], tc))
+        a2 = dict(rel_id='R2', source=_end('Q', ['X'], sc), target=_end('T', ['B'], tc))
+        rows += tag('P', lambda v: [v[0], v[1]]) + tag('Q', lambda v: [v[1]])
+    elif naming == 'permuted':
+        classes = [T, dict(kind='P', attrs=[['Tag', 'INTEGER'], ['X', t0], ['Y', t1]]), dict(kind='Q', attrs=[['Tag', 'INTEGER'], ['X', t1], ['Y', t0]])]
+        a1 = dict(rel_id='R1', source=_end('P', ['X', 'Y'], sc), target=_end('T', ['Id', 'B'], tc))
+        a2 = dict(rel_id='R2', source=_end('Q', ['X', 'Y'], sc), target=_end('T', ['B', 'Id'], tc))
+        rows += tag('P', lambda v: [v[0], v[1]]) + tag('Q', lambda v: [v[1], v[0]])
+    else:
+        raise ValueError(naming)
+    return dict(classes=classes, assocs=[a2, a1] if first else [a1, a2], ids=[], rows=rows)
 
 
 def reflexive_desc(ty, rows, cards):
@@ -414,18 +470,24 @@ def join_cases(quick):
         for t in cwr(range(9), 2):
             for r in cwr(range(9), 3 if big else 2):
                 n += 1
-                yield ('double', list(tys), list(t), list(r), n % 4)
+                yield ('double', list(tys), list(t), list(r), n % 4, (n // 4) % DOUBLE_NAMINGS)
     for tys in (SHARED_QUICK if quick else SHARED_ALL):
         for t1 in ([1], [1, 2], [0, 1]):
             for t2 in range(9):
                 for r in cwr(range(9), 2):
                     n += 1
                     yield ('shared', list(tys), t1, [t2], list(r), n % 4)
+    others = TWO_KEYS_NAMINGS[1:]
     for tys in (SHARED_QUICK if quick else SHARED_ALL):
         for t in cwr(range(9), 2):
             for r in cwr(range(9), 1 if quick else 2):
                 n += 1
-                yield ('two-keys', list(tys), list(t), list(r), n % 4)
+                yield ('two-keys', list(tys), list(t), list(r), n % 4, 'one-class', 0)
+                # quick: two of the five other namings per population, rotating; thorough: all; either association first
+                for j, naming in enumerate(others):
+                    if quick and (n + j) % 5 > 1:
+                        continue
+                    yield ('two-keys', list(tys), list(t), list(r), n % 4, naming, (n // 5 + j) % 2)
     for ty in G.CORE_TYPES:
         k = len(SINGLE[ty])
         pairs = list(itertools.product(range(k), repeat=2))
@@ -441,17 +503,19 @@ def join_desc(case):
         a = SINGLE[ty]
         return single_key_desc(ty, [a[i] for i in t], [a[i] for i in r], CARD_ROT[c])
     if kind == 'double':
-        _, tys, t, r, c = case
+        _, tys, t, r, c, naming = case
         tup = [(COMPONENT[tys[0]][i], COMPONENT[tys[1]][j]) for i, j in itertools.product(range(3), repeat=2)]
-        return double_key_desc(tys, [tup[i] for i in t], [tup[i] for i in r], CARD_ROT[c])
+        return double_key_desc(tys, [tup[i] for i in t], [tup[i] for i in r], CARD_ROT[c], naming)
     if kind == 'shared':
         _, tys, t1, t2, r, c = case
         tup = [(COMPONENT[tys[0]][i], COMPONENT[tys[1]][j]) for i, j in itertools.product(range(3), repeat=2)]
         return shared_desc(tys, [COMPONENT[tys[0]][i] for i in t1], [tup[i] for i in t2], [tup[i] for i in r], CARD_ROT[c])
     if kind == 'two-keys':
-        _, tys, t, r, c = case
+        _, tys, t, r, c, naming, first = case
+        if naming == 'shared':
+            tys = [tys[0], tys[0]]
         tup = [(COMPONENT[tys[0]][i], COMPONENT[tys[1]][j]) for i, j in itertools.product(range(3), repeat=2)]
-        return two_keys_desc(tys, [tup[i] for i in t], [tup[i] for i in r], CARD_ROT[c])
+        return two_keys_desc(tys, [tup[i] for i in t], [tup[i] for i in r], CARD_ROT[c], naming, first)
     if kind == 'reflexive':
         _, ty, rows, c = case
         a = SINGLE[ty]
@@ -469,12 +533,13 @@ def small_populations(quick):
     pops.append(('string-null-ref', single_key_desc('STRING', [''], ['', 'a'], ('MC', '1C')), (), False))
     pops.append(('integer-zero-key', single_key_desc('INTEGER', [0, 1], [0], ('MC', '1C')), (), False))
     pops.append(('uid-unset', single_key_desc('UNIQUE_ID', [U, 0], [U], ('MC', '1C')), (), False))
-    d = double_key_desc(('INTEGER', 'STRING'), [(1, 'a')], [(1, 'a'), (1, '')], ('MC', '1C'))
+    d = double_key_desc(('INTEGER', 'STRING'), [(1, 'a')], [(1, 'a'), (1, '')], ('MC', '1C'), naming=1)
     d['ids'] = []
     pops.append(('double-key', d, (), False))
-    d = double_key_desc(('UNIQUE_ID', 'BOOLEAN'), [(1, True)], [(1, True), (1, U)], ('MC', '1C'))
+    d = double_key_desc(('UNIQUE_ID', 'BOOLEAN'), [(1, True)], [(1, True), (1, U)], ('MC', '1C'), naming=5)
     d['ids'] = []
     pops.append(('double-key-unset', d, (), False))
+    pops.append(('two-identifiers-one-referential', two_keys_desc(('UNIQUE_ID', 'UNIQUE_ID'), [(1, 2)], [(2, U)], ('MC', '1C'), 'shared'), (), False))
     pops.append(('reflexive-chain', reflexive_desc('UNIQUE_ID', [(1, 0), (2, 1), (3, 2), (4, 4)], ('1C', '1C')), (), False))
     pops.append(('reflexive-string', reflexive_desc('STRING', [('a', ''), ('', 'a'), ('b', 'a'), ('a', 'b')], ('MC', 'MC')), (), False))
     sh = shared_desc(('UNIQUE_ID', 'STRING'), [1], [(1, 'a')], [(1, 'a')], ('MC', '1C'))
@@ -507,6 +572,11 @@ def small_populations(quick):
                   ids=[], rows=[mkrow('A', 1, [1]), mkrow('A', 2, [2]), mkrow('C', 3, [1, 2])])
         pops.append(('association-class-7', ac, (), False))
         pops.append(('shared-7', shared_desc(('UNIQUE_ID', 'STRING'), [1], [(1, 'a')], [(1, 'a')], ('MC', '1C')), (), False))
+        d = double_key_desc(('STRING', 'STRING'), [('a', "b'")], [('a', "b'"), ("b'", 'a')], ('MC', '1C'), naming=4)
+        d['ids'] = []
+        pops.append(('double-key-crossed-names', d, (), False))
+        pops.append(('two-identifiers-equal-referential-names-8',
+                     two_keys_desc(('INTEGER', 'STRING'), [(1, 'a')], [(1, 'a')], ('MC', '1C'), 'equal', 1), (), False))
     return pops
 
 
@@ -547,9 +617,14 @@ def run_order(stmts, order, split):
                              'xtuml.meta.MetaClass.clone'], shards=6, weight=3,
       bound='single keys of the 5 core types: all multisets of n referred x n referring rows (n=1,2,3) over {unset, null/zero, 2 values}; '
             '2-attribute keys (quick 5 type pairs, thorough 25): multisets of 2 x 2 rows (3 referring rows for 5 pairs in '
-            'thorough) over 9 key tuples incl. null/unset components; shared referential attribute in two associations (quick 3, '
-            'thorough 9 type pairs); two associations to one class over different identifying attributes (same type pairs); reflexive: multisets of 3 rows over 16 (Id, Prev) pairs; 4 cardinality pairs rotating; '
-            'API routes new/clone on non-reflexive populations within multiplicity')
+            'thorough) over 9 key tuples incl. null/unset components, 6 rotating spellings of the key (referential names '
+            'sorting like / unlike the identifying ones, pairs listed in the other order, same and crossed spelling on the '
+            'two sides, other declaration order); shared referential attribute in two associations (quick 3, '
+            'thorough 9 type pairs); two associations to one class over different identifying attributes (same type pairs): '
+            'from one class over two attributes, and from two classes with equal / crossed / overlapping / permuted '
+            'referential names or from one class over one shared attribute (quick: 2 of these 5 per population, rotating; '
+            'thorough: all; either association stated first, rotating); reflexive: multisets of 3 rows over 16 '
+            '(Id, Prev) pairs; 4 cardinality pairs rotating; API routes new/clone on non-reflexive populations within multiplicity')
 def join(ctx):
     if ctx.shard == 0:
         ctx.note('API routes are evaluated only where the rule\'s links respect the declared multiplicities (relate raises '
@@ -569,9 +644,10 @@ def join(ctx):
 
 
 @item('orders', stands_in_for=['xtuml.load.ModelLoader.populate', 'xtuml.load.ModelLoader.input'], shards=6, weight=3,
-      bound='populations of <=6 statements (quick 13, thorough 28 + 2 of 7 statements sampled): all permutations; quick: '
+      bound='populations of <=6 statements (quick 14, thorough 30 + 3 of 7..8 statements sampled): all permutations; quick: '
             'single input + 1 rotating split per permutation, thorough: all split points; explicit, inferred (positional, '
-            'named) and mixed schemas')
+            'named) and mixed schemas, composite keys with differently ordered names, one referential attribute reaching '
+            'one class through two identifiers')
 def orders(ctx):
     n = 0
     complete = True
@@ -711,14 +787,14 @@ def run_packaging(stmts, assignment, layout, kinds, tmp, real=False):
 def packaging_populations(quick):
     pops = small_populations(True)
     keep = ('uid-linked-dangling', 'string-dup', 'double-key', 'reflexive-chain', 'shared-attr-two-associations',
-            'inferred-positional', 'explicit-and-inferred')
-    pops = [p for p in pops if p[0] in keep]
-    return pops[:4] + pops[5:6] if quick else pops
+            'inferred-positional', 'explicit-and-inferred', 'two-identifiers-one-referential')
+    quick_keep = ('uid-linked-dangling', 'string-dup', 'double-key', 'reflexive-chain', 'inferred-positional')
+    return [p for p in pops if p[0] in (quick_keep if quick else keep)]
 
 
 @item('packaging', stands_in_for=['bridgepoint.ooaofooa.ModelLoader.filename_input', 'xtuml.load.load_metamodel',
                                   'xtuml.load.ModelLoader.filename_input', 'xtuml.load.ModelLoader.file_input'], shards=4, weight=2,
-      bound='populations of <=6 statements (quick 5, thorough 7): every partition of the statements into <=3 (quick) / <=4 '
+      bound='populations of <=6 statements (quick 5, thorough 8): every partition of the statements into <=3 (quick) / <=4 '
             '(thorough) files x 8 layouts (quick: 4 alternating layouts for 3-file partitions) (file list in both orders, bridgepoint loader over files, flat / nested directory, '
             'flat / nested zip, file + directory); the bridgepoint loader with its preloaded ooaofooa schema once per '
             'population and layout, otherwise a subclass that skips the preload')
@@ -750,6 +826,60 @@ def packaging(ctx):
     finally:
         shutil.rmtree(tmp, ignore_errors=True)
 
+# --------------------------------------------------------------------------------------------------- API route with phrases
+
+def phrased_cases():
+    """associations whose ends carry phrases: a binary one (phrases are optional there, but allowed) and reflexive chains (where
+    they are required); rows in referred-first order so that the API route can create them one after the other"""
+    for sc, tc in (('M', '1'), ('MC', '1C'), ('1C', '1C')):
+        for rrows in ([1], [1, 2], [2, 3], [3], [None, 1]):
+            d = single_key_desc('INTEGER', [1, 2], rrows, (sc, tc))
+            d['assocs'][0]['source']['phrase'] = 'is for'
+            d['assocs'][0]['target']['phrase'] = 'has'
+            if within_multiplicity(d, rule_links(d)):
+                yield 'binary', d
+    for rows in ([(1, None), (2, 1)], [(1, None), (2, 1), (3, 2)], [(1, None), (2, None), (3, 1)], [(1, None), (2, 7)]):
+        d = reflexive_desc('INTEGER', rows, ('1C', '1C'))
+        if within_multiplicity(d, rule_links(d)):
+            yield 'reflexive', d
+
+
+def run_api_phrases(shape, desc):
+    import xtuml
+    expected = rule_links(desc)
+    try:
+        loaded = tagged_view(load_texts(['\n'.join(statements(desc))]))
+    except Exception as e:
+        return [('load-accepted', '%s: %s' % (type(e).__name__, str(e)[:300]), 'generated text loads')]
+    out = check_rule(loaded, expected)
+    m = G.api_schema(desc)
+    for r in desc['rows']:
+        kw = dict((k, v) for k, v in _new_kwargs(desc, r['kind'], r).items() if v is not None)
+        try:
+            m.new(r['kind'], **kw)
+        except xtuml.MetaException as e:
+            out.append(('api-phrased-association:%s' % shape, dict(row=[r['kind'], r['values'][0]], raised='%s: %s' % (type(e).__name__, e)),
+                        'row created and linked as the loader links it'))
+            return out
+    v = tagged_view(m)
+    for direction in ('links_from_referring', 'links_from_referred'):
+        if v[direction] != loaded[direction]:
+            out.append(('api-phrased-association:%s' % shape, dict(direction=direction, api=v[direction], loaded=loaded[direction]),
+                        'same links as loading the same rows'))
+            break
+    return out
+
+
+@item('api-phrases', stands_in_for=['xtuml.meta.MetaClass.new'], shards=1,
+      bound='binary association with phrases on both ends (3 cardinality pairs x 5 referring populations) and reflexive chains with '
+            'phrases (4 populations); rows created through MetaClass.new in referred-first order, links compared with the loader and the rule')
+def api_phrases(ctx):
+    for shape, desc in phrased_cases():
+        ctx.case(key=[shape, desc['rows'], desc['assocs'][0]['source']['many']], nontrivial=True)
+        for c, o, r in run_api_phrases(shape, desc):
+            ctx.check(False, clause=c, input=dict(shape=shape, desc=desc, api_phrases=True), observed=o, required=r)
+    ctx.exhausted = True
+
 
 def replay(item_name, input):
     def fmt(res):
@@ -764,6 +894,8 @@ def replay(item_name, input):
         finally:
             shutil.rmtree(tmp, ignore_errors=True)
     desc = input['desc']
+    if input.get('api_phrases'):
+        return fmt(run_api_phrases(input['shape'], desc))
     if item_name == 'join':
         return fmt(run_join(desc))
     base, _ = _canonical(input['statements'])
